@@ -1,16 +1,26 @@
 ----------------------------- MODULE Trace_Cache -----------------------------
 (* Trace validation of the rule cache (hook H1) over whole processes - used on the traces the    *)
-(* repository's own test suite produces when it is run with the hooks on.  The cache is a set of *)
-(* keys; a lookup hits iff the key was inserted before (in this process); an insert follows a    *)
-(* miss of the same key by the same thread.  Keys are opaque strings.                            *)
-EXTENDS Integers, Sequences, FiniteSets, TLC, Json, IOUtils
+(* repository's own test suite produces when it is run with the hooks on.                        *)
+(*   - the cache is a set of keys; a lookup hits iff the key was inserted before (in this        *)
+(*     process and not cleared since); an insert follows a miss of the same key by the same      *)
+(*     thread (CacheCoherent / no foreign inserts);                                              *)
+(*   - every lookup is made by a rule object (method, n, order) and must ask for exactly the     *)
+(*     key spec/Rules.tla dispatches that configuration to: parity = Parity(m, n, o) and         *)
+(*     num_terms = NumTerms(m, n, o) (DispatchConforms) - this ties every rule the test-suite    *)
+(*     ever requested to the specification the truncation-order theorems were proved for.        *)
+(* Keys are <<ratio as string, parity, num_terms>>.                                              *)
+EXTENDS Rules, Sequences, FiniteSets, Json, IOUtils
 Traces == JsonDeserialize(IOEnv.TRACE_FILE).traces
 VARIABLES t, l, cache, pending
 vars == <<t, l, cache, pending>>
 Ev == Traces[t].ev
 TraceInit == t \in 1..Len(Traces) /\ l = 1 /\ cache = {} /\ pending = {}
+KnownMethod(m) == m \in {"central", "central2", "forward", "backward", "complex"}
+DispatchConforms(e) ==
+  KnownMethod(e.m) /\ e.n >= 1 /\ e.o >= 1 /\ e.parity = Parity(e.m, e.n, e.o) /\ e.terms = NumTerms(e.m, e.n, e.o)
 Get == /\ l <= Len(Ev) /\ Ev[l].ev = "rule_get"
        /\ Ev[l].hit = (Ev[l].key \in cache)                                   \* CacheCoherent
+       /\ DispatchConforms(Ev[l])
        /\ pending' = IF Ev[l].hit THEN pending ELSE pending \cup {<<Ev[l].thread, Ev[l].key>>}
        /\ UNCHANGED cache
 Insert == /\ l <= Len(Ev) /\ Ev[l].ev = "rule_insert"
